@@ -166,6 +166,10 @@ impl<'a> Lower<'a> {
         for (i, table) in self.children.iter().enumerate() {
             for (j, a_entry) in table.iter().enumerate() {
                 let start = FrameId(TreeId(i).as_frame().0 + HugeId(j).as_frame().0);
+                if start.0 >= self.frames() {
+                    // The last table might contain entries without a bitfield
+                    break;
+                }
                 let entry = a_entry.load();
 
                 if entry.huge() {
